@@ -44,6 +44,8 @@ PLAIN = ['result: ok', 'total 42 items', 'alpha beta gamma', 'x = 3.5; y = -2', 
          'triple """ quotes \'\'\'', 'trailing space ', '    indented', 'r"raw" b\'bytes\' \\n \\t', 'path/like/this and C:\\dir\\file',
          # dates far from the day of the run are ordinary content: a change on such a line must be noticed
          'expires 12/25/2076 ok', 'issued 03/04/1999 by clerk', 'build 2031-07-04 done', 'since 1 Jan 2001 open']
+# line boundaries other than a bare newline inside the text (form feed, a lone carriage return, CR LF, unicode separators)
+ODD_BREAKS = ['page one\x0cpage two', 'progress 10%\rprogress 20%', 'crlf line\r', 'ls\u2028ps', 'nel\x85nel', 'fs\x1cfs']
 FAR_DATES = ['expires 12/25/2076 ok', 'issued 03/04/1999 by clerk', 'build 2031-07-04 done', 'since 1 Jan 2001 open',
              'valid until 11/30/2088 inclusive']
 SPECIFIC = ['generated 2020-02-29 for test', 'at 31/12/1999 23:59:58', 'version 1.2.0 build 15', 'on 31/02/2020 (no such day)',
@@ -82,7 +84,9 @@ def text_of(rnd, nlines, allow_specific=True, token_pool=()):
     lines = [rnd.choice(FAR_DATES) if rnd.random() < 0.3 else rnd.choice(PLAIN)]
     for _ in range(nlines - 1):
         r = rnd.random()
-        if allow_specific and r < 0.25:
+        if r > 0.9:
+            lines.append(rnd.choice(ODD_BREAKS))
+        elif allow_specific and r < 0.25:
             lines.append(rnd.choice(SPECIFIC))
         elif token_pool and r < 0.4:
             lines.append('token %s here' % rnd.choice(token_pool))
@@ -136,6 +140,12 @@ def make_case(rnd, wd, shape, tmpdir_tokens_with_one_iteration=True, dated_first
     beh = {'stdout': text_of(rnd, rnd.randint(0, 4), token_pool=tokens) if rnd.random() < 0.85 else '',
            'stderr': text_of(rnd, rnd.randint(1, 3), allow_specific=False, token_pool=tokens) if rnd.random() < 0.5 else '',
            'files': files, 'exit': rnd.choice([0, 0, 0, 3])}
+    if rnd.random() < 0.12:
+        # a log whose every line is stamped with today's date (five or more stamps)
+        import datetime as _dt
+        today = _dt.date.today()
+        fmt = rnd.choice(['%Y-%m-%d', '%d/%m/%Y', '%Y-%m-%d 10:%M:00'])
+        beh['stdout'] = ''.join('%s step %d done\n' % (today.strftime(fmt).replace('%M', '%02d' % k_), k_) for k_ in range(rnd.randint(5, 7)))
     if dated_first_line is not None:
         # a first line of standard output that carries a date decades away from today (ordinary content)
         rest = beh['stdout'].split('\n', 1)[1] if '\n' in beh['stdout'] else ''
